@@ -109,12 +109,26 @@ def run(cmd, **kw):
 
 
 def _compile_one(src, flags, objdir):
-    # whole-tree hash: any change in the tree recompiles (11 s cold, 16-way); simple and sound
-    key = _sha(src, " ".join(flags), headers_hash())
+    # keyed by the PREPROCESSED text of the translation unit (-P: no line markers) and the flags,
+    # with the tree's location normalised (-ffile-prefix-map maps __FILE__ and debug paths to /repo):
+    # an object is reused exactly when the compiler would see the same input, wherever the tree
+    # lives, so a one-file change in a scratch worktree recompiles one file
+    pmap = ["-ffile-prefix-map=%s=/repo" % REPO.rstrip("/")]
+    r = subprocess.run(["gcc", "-std=gnu90", "-E", "-P", os.path.join(REPO, src)] + flags + pmap,
+                       stdout=subprocess.PIPE, stderr=subprocess.PIPE)
+    if r.returncode != 0:
+        return None, "preprocess failed: %s\n%s" % (src, r.stderr.decode(errors="replace")[-3000:])
+    # include paths are subsumed by the preprocessed text
+    key = _sha(src, " ".join(f for f in flags if not f.startswith("-I")), r.stdout)
     obj = os.path.join(objdir, key + ".o")
     if os.path.exists(obj):
+        try:
+            os.utime(obj, None)
+        except OSError:
+            pass
         return obj, None
     tmp = obj + ".tmp%d" % os.getpid()
+    flags = flags + pmap
     rc, out = run(["gcc", "-std=gnu90", "-c", os.path.join(REPO, src), "-o", tmp] + flags)
     if rc != 0:
         return None, "compile failed: %s\n%s" % (src, out)
